@@ -22,13 +22,15 @@ P = dict(
           "divisor 0, |min|, unrepresentable gcd/lcm/ipow/quotient, negative exponent, ilog2(x<=0)) are skipped and not counted. Distinct = distinct "
           "(function, types, argument tuple): enumerated blocks enumerate without repetition and exclude tuples owned by another block; a random tuple "
           "counts only if it is not in the enumerated sets and its hash is new. Non-trivial: every in-domain tuple (these are pure functions; there is no state)."),
-    units=[
-        Unit("C14_bit", "harness/C14_bit.cpp", flavours=_FL, shards={"quick": 4, "thorough": 8}),
-        Unit("C14_arith", "harness/C14_arith.cpp", defs=["-DC14_PART=1"], flavours=_FL, shards={"quick": 4, "thorough": 8}),
-        Unit("C14_gcdmix", "harness/C14_arith.cpp", defs=["-DC14_PART=2"], flavours=_FL, shards={"quick": 4, "thorough": 8}),
-        Unit("C14_cmp_s", "harness/C14_cmp.cpp", defs=["-DC14_ROWS=0"], flavours=_FL, shards={"quick": 4, "thorough": 8}),
-        Unit("C14_cmp_u", "harness/C14_cmp.cpp", defs=["-DC14_ROWS=1"], flavours=_FL, shards={"quick": 4, "thorough": 8}),
-    ],
+    units=(
+        [Unit("C14_bit", "harness/C14_bit.cpp", flavours=_FL, shards={"quick": 3, "thorough": 6})]
+        + [Unit(f"C14_arith_{r}", "harness/C14_arith.cpp", defs=["-DC14_PART=1", f"-DC14_ROWS={r}"], flavours=_FL,
+                shards={"quick": 3, "thorough": 6}) for r in (0, 1)]
+        + [Unit(f"C14_gcdmix_{r}", "harness/C14_arith.cpp", defs=["-DC14_PART=2", f"-DC14_ROWS={r}"], flavours=_FL,
+                shards={"quick": 2, "thorough": 4}) for r in (0, 1, 2, 3)]
+        + [Unit(f"C14_cmp_{r}", "harness/C14_cmp.cpp", defs=[f"-DC14_ROWS={r}"], flavours=_FL,
+                shards={"quick": 2, "thorough": 4}) for r in (0, 1, 2, 3)]
+    ),
     floor={"quick": 10000000, "thorough": 100000000},
     assumptions=["libstdc++ 12 <bit>, <numeric> (gcd/lcm/midpoint) and <utility> (cmp_*/in_range) are correct references",
                  "__int128 arithmetic of gcc 12 is exact for 64-bit operands",
